@@ -60,6 +60,8 @@ def parseOp (w : List String) : Option Op :=
   | ["unfix"] => some .freeFixup
   | ["addr", a] => (parseHex? a).map .addAddr
   | ["emit", s, n] => do let s ← s.toNat?; let n ← n.toNat?; some (.emit s n)
+  | ["inst", s, k] => do let s ← s.toNat?; let k ← k.toNat?; some (.inst s k)
+  | ["jmpf", s] => s.toNat?.map .jmpf
   | ["vapp", x] => x.toNat?.map .vappend
   | ["vres", n] => n.toNat?.map .vreserve
   | ["sapp", n, c] => do let n ← n.toNat?; let c ← c.toNat?; some (.sappend n c)
